@@ -76,6 +76,8 @@ class World:
         self.caller_objs[name] = o.oid
         if self.skeleton is not None:
             self.skeleton.objs[o.oid] = o
+            self.skeleton.owned.discard(o.oid)
+            e.heap.owned.discard(o.oid)
         if elem_tag:
             o.elem = Val(locs=[(o.oid, ("[*]",))], tags=[elem_tag], deps=[("param", name)])
         return Val(refs=[o.oid], deps=[("param", name)], tags=["param:" + name])
@@ -108,7 +110,7 @@ class World:
         for oid in self.reachable(mab.oid):
             o = e.obj(oid)
             if o.region == "fresh":
-                o.region = "bandit"
+                e.mobj(oid).region = "bandit"
         self.skeleton = e.heap.copy()
         self.init_heap = e.heap.copy()
         self._apply_forget()
@@ -147,6 +149,7 @@ class World:
             o = heap.objs[oid]
             if o.region != "bandit":
                 continue
+            o = heap.mut(oid)
             for f in list(o.fields):
                 if (o.cls, f) in self.forget:
                     v = o.fields[f]
